@@ -98,6 +98,7 @@ class Rec:
         self.flag0 = False
         self.incomplete = None
         self.t_end = None
+        self.wait_log = []       # (start, timeout, elapsed, event was already set) per wait, for diagnostics
 
     def now(self):
         return _tick(self.s.now)
@@ -509,6 +510,7 @@ def impl_run(case):
                     if rec.now() - w0 < d:
                         raise HarnessProblem(f'wait({tq}) returned after {rec.now() - w0} ticks without a trigger')
             rec.waits.append([{'d': b['d'], 'x': b['x']} for b in batches])
+            rec.wait_log.append((w0, _tick(tq), d, was_set))
             rec.mclock = w0 + d
             return r
         ev.wait = wait
@@ -556,7 +558,8 @@ def impl_run(case):
                 begin = rec.now()
                 batch = None
                 if op == 'pi':
-                    batch = note_ext(['ui', i, a['v']])
+                    # recorded by the wrapper of PollInfo.update_interval, and only if the callback really runs
+                    # (announceUpdate omits callbacks for an unchanged value within `omit_unchanged_within`)
                     mobj.pollinterval = a['v'] / TICKS
                 elif op == 'fast':
                     batch = note_ext(['fp', i, bool(a['flag']), a['v']])
@@ -583,10 +586,26 @@ def impl_run(case):
             s.time.sleep(T_end / TICKS)
             s._abort('done')
 
+        orig_ui = mb.PollInfo.update_interval
+
+        def update_interval(self, pollinterval):
+            idx = next((j for j, mo in enumerate(thread_mods) if mo.pollInfo is self), None)
+            b = None
+            if idx is not None and rec.poller is not None:
+                b = note_ext(['ui', idx, _tick(pollinterval)])
+            r = orig_ui(self, pollinterval)
+            if b is not None:
+                b['set'] = ev.is_set()
+            return r
+
         rec.poller = s.spawn('poller', body)
         s.spawn('actor', actor)
         s.spawn('stopper', stopper)
-        out = s.run(wall_timeout=WALL_PER_RUN)
+        mb.PollInfo.update_interval = update_interval
+        try:
+            out = s.run(wall_timeout=WALL_PER_RUN)
+        finally:
+            mb.PollInfo.update_interval = orig_ui
 
     if out['aborted'] != 'done':
         if out['aborted'] in ('wall timeout', 'step limit'):
@@ -608,6 +627,7 @@ def impl_run(case):
         'incomplete': rec.incomplete,
         'advs': rec.advs,
         'waits': rec.waits,
+        'wait_log': rec.wait_log,
         'clock0': start,
         'loopStart': rec.loop_start if rec.loop_start is not None else (rec.mclock or start),
         'tEnd': rec.t_end if rec.t_end is not None else state.get('tEnd', start + T_end),
